@@ -516,7 +516,8 @@ def dataclass_field_to_default(cls):
 
     if cls not in FIELD_TO_DEFAULT:
         _yp('defaults.miss')
-        defaults = FIELD_TO_DEFAULT[cls] = {}
+        # fill a local dict first, and publish it only when it is complete
+        defaults = {}
         _yp('defaults.registered')
         for f in dataclass_fields(cls):
             _yp('defaults.fill')
@@ -524,6 +525,7 @@ def dataclass_field_to_default(cls):
                 defaults[f.name] = f.default
             elif f.default_factory is not MISSING:
                 defaults[f.name] = f.default_factory()
+        FIELD_TO_DEFAULT[cls] = defaults
 
     return FIELD_TO_DEFAULT[cls]
 
